@@ -312,6 +312,8 @@ func (p *c20) runSeq(x *res, adapter string, regs []int, reqs []c20Req, nativeOn
 		register()
 	}
 	specs := []adapt.TableSpec{mon.SpecHashOnly("tba"), mon.SpecHashOnly("tbb")}
+	// (the first table has a secondary index over an attribute of the items: dispatch does not depend on it)
+	specs[0].Indexes = []adapt.IndexSpec{{Name: "gsia", Hash: "a"}}
 	install := func() {
 		nc.setInterp(native)
 		if nativeOn {
@@ -401,7 +403,13 @@ func (p *c20) runSeq(x *res, adapter string, regs []int, reqs []c20Req, nativeOn
 				op = adapt.Op{Kind: adapt.OpScan, Table: req.table, Filter: req.text, Values: values}
 			case "conditional":
 				it2 := item.Clone()
-				it2["marker"] = val.Str("written")
+				if (len(regs)+ri)%2 == 0 {
+					it2["marker"] = val.Str("written")
+				} else {
+					// (every other conditional put writes the item exactly as it is stored: the create-once put sent twice.
+					// Its condition is decided like any other - by the registered matcher, when there is one)
+					x.r.Counters["conditional_puts_of_the_stored_item"]++
+				}
 				op = adapt.Op{Kind: adapt.OpPut, Table: req.table, Item: it2, Cond: req.text, Values: values}
 			case "update":
 				op = adapt.Op{Kind: adapt.OpUpdate, Table: req.table, Key: val.Item{"h": val.Str("k")}, Update: req.text, Values: values}
